@@ -23,6 +23,7 @@ CLAUSE = CLAUSE + (" (RF-CMP) every comparison of the current position with the 
 CLAUSE = CLAUSE + (" (RF-WIDTH) the subpage range the walk iterates over is stored in fields wide enough for every subcode.")
 CLAUSE = CLAUSE + (" The DFA minimisation compares the acceptance of every pair of successor states it examines, inside the pair loop.")
 CLAUSE = CLAUSE + (' The page walk enters a page at subno_max when walking backward and at subno_min when walking forward.')
+CLAUSE = CLAUSE + (' highlight() stores the forward and the backward resume position on every path; the case of vbi_search_next() for a completed pass forgets the direction.')
 NOT_DECIDED = ("that exactly the matching pages are found, in order, each once (values); the regex engine's matching semantics; "
                "haystack construction.")
 
@@ -98,9 +99,46 @@ def run(ctx, run):
     _minimisation_keeps_acceptance(ctx, run)
     _enter_page_at_far_end(ctx, run, walk)
     _finished_pass_rearms(ctx, run, nxt, sw[0])
+    _highlight_sets_both_resume_positions(ctx, run, P.need("highlight", SEARCH))
     # the walk visits the subpage range the statistics recorded: the range must not be truncated (shared with C10)
     from . import C10
     C10._subno_range_fits(ctx, run)
+
+
+def _highlight_sets_both_resume_positions(ctx, run, f):
+    """highlight() records where the next call resumes: row[0] / col[0] for a forward pass (behind the match), row[1] /
+    col[1] for a backward pass (in front of it).  Both must be written on every path - a position left over from an
+    earlier hit makes search_page_rev() rebuild a haystack that still contains the match just reported: the backward pass
+    reports it again and again and never ends.  (The backward position used to be set only while walking the cells in
+    front of the match, i.e. not at all for a match at the first cell of the page.)"""
+    run.touch(f)
+    missing = []
+    for member in ("row", "col"):
+        for k in (0, 1):
+            st = set()
+            for b, i in flow.all_events(f):
+                for lhs, var, op, rhs in flow.stores(f, i):
+                    if lhs is None:
+                        continue
+                    l = f.exprs[ex.skip(f, lhs)]
+                    if l["k"] == "idx" and ex.const(f, l["c"][1]) == k:
+                        base = f.exprs[ex.skip(f, l["c"][0])]
+                        while base["k"] == "cast":
+                            base = f.exprs[ex.skip(f, base["c"][0])]
+                        if base["k"] == "mem" and base["member"] == member and base.get("in") == "vbi_search":
+                            st.add(b)
+            if not st:
+                raise AnalysisBroken("highlight: no store of %s[%d]" % (member, k))
+            if f.exit in flow.reach_from(f, f.entry, avoid=st):
+                missing.append("%s[%d]" % (member, k))
+    key = "RF-INIT:highlight:resume-positions"
+    if missing:
+        run.violation("RF-INIT", key, "highlight() has a path that does not store s->%s: the backward (index 1) resume position "
+                      "keeps the value of an earlier hit when the match starts at the first cell of the page, search_page_rev() "
+                      "finds the same match again and the backward pass never ends" % ", s->".join(missing),
+                      "%s:%d" % (f.file, f.line), witness={"not_stored_on_every_path": missing})
+    else:
+        run.holds("RF-INIT", key, "every path through highlight() stores row[0], col[0], row[1] and col[1]", "%s:%d" % (f.file, f.line))
 
 
 def _finished_pass_rearms(ctx, run, f, sw):
